@@ -342,7 +342,7 @@ def contains(P, container, item):
             return any(cs)
         return z3.Or(*[zbool(c) for c in cs])
     if isinstance(container, dict):
-        cs = [P.eq(item, x) for x in container.keys()]
+        cs = [P.eq(item, x.v if isinstance(x, _SymKey) else x) for x in container.keys()]
         if all(isinstance(c, bool) for c in cs):
             return any(cs)
         return z3.Or(*[zbool(c) for c in cs])
@@ -498,12 +498,12 @@ def getitem(P, c, k):
                 raise _pyexc(P, "TypeError", "unhashable")
             # symbolic keys stored in concrete dict? compare one by one
             for kk in c:
-                if is_sym(kk):
-                    if P.branch(P.eq(kk, k)):
+                if isinstance(kk, _SymKey):
+                    if P.branch(P.eq(kk.v, k)):
                         return c[kk]
             raise _pyexc(P, "KeyError", k)
         for kk in c:
-            if P.branch(P.eq(kk, k)):
+            if P.branch(P.eq(kk.v if isinstance(kk, _SymKey) else kk, k)):
                 return c[kk]
         raise _pyexc(P, "KeyError", k)
     if isinstance(c, SMap):
@@ -562,9 +562,11 @@ def setitem(P, c, k, v):
             raise _pyexc(P, "IndexError", "list assignment index out of range")
         raise _unsup("list store with symbolic index")
     if isinstance(c, dict):
+        if isinstance(k, _SymKey):
+            k = k.v
         if is_sym(k):
             for kk in list(c):
-                if P.branch(P.eq(kk, k)):
+                if P.branch(P.eq(kk.v if isinstance(kk, _SymKey) else kk, k)):
                     c[kk] = v
                     return
             c[_SymKey(k)] = v
@@ -794,7 +796,8 @@ def call_method(P, recv, name, args, kwargs):
         if name == "update":
             for a in args:
                 if isinstance(a, dict):
-                    recv.update(a)
+                    for kk, vv in a.items():
+                        setitem(P, recv, kk, vv)
                 else:
                     raise _unsup("dict.update non-dict")
             recv.update(kwargs)
